@@ -7,8 +7,13 @@ use crate::util;
 use std::collections::BTreeMap;
 use std::panic::{catch_unwind, AssertUnwindSafe};
 
+/// Working memory of objects under test is overwritten with a never-repeating stream at every resize - except for
+/// every third object, which keeps the zero-filled memory a freshly constructed production object has (a defect
+/// that only shows when the unused lanes of the final block are zero would otherwise be masked by the poison).
 pub fn poison_on(seed: u64) {
-    reed_solomon_simd::verif::set_poison(seed | 1);
+    static N: std::sync::atomic::AtomicU64 = std::sync::atomic::AtomicU64::new(0);
+    let n = N.fetch_add(1, std::sync::atomic::Ordering::Relaxed);
+    reed_solomon_simd::verif::set_poison(if n % 3 == 2 { 0 } else { seed | 1 });
 }
 
 /// One encode round on a fresh object of (kind, E). `kind = None` means the one-shot function.
